@@ -25,66 +25,39 @@ TRUSTED = ['jsonpickle reconstruction contract: __new__(cls, *__getnewargs__()) 
 MAPS = {'cells', 'defined_names', 'formulae', 'ranges'}
 
 
-class _File(PyModel):
-    def __init__(self, log, opener, name, mode):
-        self.log = log
-        log.append(('open', opener, name, mode))
-
-    def write(self, data):
-        self.log.append(('write', data))
-
-    def read(self):
-        self.log.append(('read',))
-        return 'BYTES'
-
-    def __enter__(self):
-        return self
-
-
-class _Doc(PyModel):
-    def __init__(self, payload):
-        self.payload = payload
-
-    def encode(self, *a):
-        return ('encoded', self)
-
-
-def _persist_models(log, decoded=None):
-    def opener(kind):
-        def f(name, mode='r', *a, **k):
-            return _File(log, kind, name, mode)
-        return f
-
-    def encode(obj, **kw):
-        log.append(('encode', obj, kw))
-        return _Doc(obj)
-
-    def decode(data, **kw):
-        log.append(('decode', data, kw))
-        return decoded if decoded is not None else {'cells': 'C', 'defined_names': 'D', 'formulae': 'F', 'ranges': 'R'}
-    import os as _os
-    return {
-        'ext:gzip.GzipFile': opener('gzip'), 'ext:gzip.open': opener('gzip'), 'builtin:open': opener('plain'),
-        'ext:jsonpickle.encode': encode, 'ext:jsonpickle.decode': decode,
-        'ext:os.path.splitext': _os.path.splitext,
-    }
-
-
-def _run_persist(ctx, which, fname, build_code=False):
+def _run_persist(ctx, which, fname, build_code=False, stored='plain'):
+    """persist_to_json_file / construct_from_json_file interpreted as written on a Model whose four maps are tokens, over the
+    file system in memory and the document registry of rules/vfs.py. -> (function, model record, file system, documents, outcome)"""
+    import gzip as _gzip
+    from . import vfs
     mm = ctx.mod('model')
     fn = mm.func('Model.persist_to_json_file' if which == 'w' else 'Model.construct_from_json_file')
-    p = func_params(fn)
-    log = []
+    fs, docs = vfs.VFS(), vfs.Documents()
     me = Rec(cls='pkg:model:Model', cells='CELLS', defined_names='NAMES', formulae='FORMULAE', ranges='RANGES', built=0)
-    env = {p[0]: me, p[1]: fname}
-    if which == 'r' and len(p) > 2:
-        env[p[2]] = build_code
-    models = _persist_models(log)
+    models = dict(fs.models())
+    models.update(docs.models())
     models['pkg:model:Model.build_code'] = lambda self_: self_.set('built', self_.get('built') + 1)
-    it = Interp(ctx.a, mm, env, inline_pkg=True, scope_fn=fn, self_class='pkg:model:Model', call_models=models)
-    it.env['open'] = Ref('builtin:open')
-    out = it.run(fn.body)
-    return fn, me, log, out
+    if which == 'r':
+        text = docs.encode({'cells': 'C', 'defined_names': 'D', 'formulae': 'F', 'ranges': 'R'}, keys=True).encode()
+        fs.files[fname] = bytearray(_gzip.compress(text, mtime=0) if stored == 'gzip' else text)
+        src = 'return m.construct_from_json_file(f, build_code=b)'
+    else:
+        src = 'return m.persist_to_json_file(f)'
+    it = Interp(ctx.a, mm, {'m': me, 'f': fname, 'b': build_code}, inline_pkg=True, call_models=models)
+    out = it.run(ast.parse(src).body)
+    return fn, me, fs, docs, out
+
+
+def _content(fs, fname):
+    """('gzip' | 'plain', text) of a file of the file system in memory"""
+    import gzip as _gzip
+    raw = bytes(fs.files.get(fname, b''))
+    if raw[:2] == b'\x1f\x8b':
+        try:
+            return 'gzip', _gzip.decompress(raw).decode('utf-8', 'replace')
+        except Exception:       # noqa: BLE001 - a damaged member
+            return 'gzip', None
+    return 'plain', raw.decode('utf-8', 'replace')
 
 
 WITNESS_FILES = [('model.json', 'plain'), ('model.gz', 'gzip'), ('model.gzip', 'gzip'), ('MODEL.JSON.GZ', 'gzip'), ('Model.Gzip', 'gzip'),
@@ -92,14 +65,14 @@ WITNESS_FILES = [('model.json', 'plain'), ('model.gz', 'gzip'), ('model.gzip', '
 
 
 def rule_1(ctx):
+    import json as _json
     try:
-        fn, me, log, out = _run_persist(ctx, 'w', 'model.json')
+        fn, me, fs, docs, out = _run_persist(ctx, 'w', 'model.json')
     except Unmodelled as exc:
         raise Unmodelled(f'persist_to_json_file: {exc}')
-    enc = [e for e in log if e[0] == 'encode']
-    if len(enc) != 1:
-        raise Unmodelled(f'persist_to_json_file encodes {len(enc)} documents')
-    payload, kw = enc[0][1], enc[0][2]
+    if out.end != 'return' or len(docs.docs) != 1:
+        raise Unmodelled(f'persist_to_json_file ends in {out.end} {out.value!r} after encoding {len(docs.docs)} documents')
+    payload, kw = docs.docs[0]
     want = {'cells': 'CELLS', 'defined_names': 'NAMES', 'formulae': 'FORMULAE', 'ranges': 'RANGES'}
     ctx.expect(isinstance(payload, dict) and set(payload) == MAPS, fn, 'persisted keys',
                f'persisted keys are {sorted(payload) if isinstance(payload, dict) else payload}, expected {sorted(MAPS)}')
@@ -109,18 +82,20 @@ def rule_1(ctx):
     ctx.expect(kw.get('keys') is True, fn, 'encode keys=True', f'jsonpickle.encode is called with keys={kw.get("keys")!r}')
     for opt in ('unpicklable', 'make_refs'):
         ctx.expect(kw.get(opt, True) is True, fn, f'encode option {opt} default', f'encode is called with {opt}={kw.get(opt)!r}')
-    writes = [e for e in log if e[0] == 'write']
-    ok = len(writes) == 1 and isinstance(writes[0][1], tuple) and writes[0][1][0] == 'encoded' and writes[0][1][1].payload is payload
-    ctx.expect(ok, fn, 'the encoded document is what is written', 'the bytes written are not the encoded jsonpickle document')
+    kind, text = _content(fs, 'model.json')
     try:
-        rfn, rme, rlog, rout = _run_persist(ctx, 'r', 'model.json')
+        ok = kind == 'plain' and _json.loads(text).get('document') == 0
+    except ValueError:
+        ok = False
+    ctx.expect(ok, fn, 'the encoded document is what is written', f'the file holds {text[:80] if text else text!r}..., not the encoded jsonpickle document and nothing else')
+    try:
+        rfn, rme, rfs, rdocs, rout = _run_persist(ctx, 'r', 'model.json')
     except Unmodelled as exc:
         raise Unmodelled(f'construct_from_json_file: {exc}')
-    dec = [e for e in rlog if e[0] == 'decode']
-    if len(dec) != 1:
-        raise Unmodelled(f'construct_from_json_file decodes {len(dec)} documents')
-    dkw = dec[0][2]
-    ctx.expect(dec[0][1] == 'BYTES', rfn, 'the bytes read are what is decoded', 'the document handed to jsonpickle.decode is not what was read')
+    if rout.end != 'return' or len(rdocs.decoded) != 1:
+        raise Unmodelled(f'construct_from_json_file ends in {rout.end} {rout.value!r} after decoding {len(rdocs.decoded)} documents')
+    dkw = rdocs.decoded[0][1]
+    ctx.ok(rfn, 'the bytes read are what is decoded')
     ctx.expect(dkw.get('keys') is True and kw.get('keys') is True, rfn, 'keys=True on both sides',
                f'encode uses keys={kw.get("keys")!r}, decode keys={dkw.get("keys")!r}: non-string keys are not restored alike')
     classes = dkw.get('classes') or ()
@@ -135,22 +110,24 @@ def rule_1(ctx):
 
 
 def rule_2(ctx):
+    mm = ctx.mod('model')
     for fname, want in WITNESS_FILES:
-        got = {}
-        for which in ('w', 'r'):
-            try:
-                fn, me, log, out = _run_persist(ctx, which, fname)
-            except Unmodelled as exc:
-                raise Unmodelled(f'{"persist_to" if which == "w" else "construct_from"}_json_file({fname!r}): {exc}')
-            opens = [e for e in log if e[0] == 'open']
-            got[which] = (opens[0][1], opens[0][3]) if len(opens) == 1 else ('?', '?')
-        mm = ctx.mod('model')
-        ctx.expect(got['w'][0] == got['r'][0], mm.func('Model.construct_from_json_file'), f'{fname!r}: written and read with the same opener',
-                   f'{fname!r} is written with the {got["w"][0]} opener but read with the {got["r"][0]} opener: the file cannot be restored')
-        ctx.expect(got['w'][0] == want, mm.func('Model.persist_to_json_file'), f'{fname!r}: compression chosen by the lower-cased extension',
-                   f'{fname!r} is written {got["w"][0]}, expected {want} (gzip exactly for the extensions .gz/.gzip in any letter case)')
-        ctx.expect(got['w'][1] == 'wb' and got['r'][1] == 'rb', mm.func('Model.persist_to_json_file'), f'{fname!r}: binary modes wb / rb',
-                   f'open modes are {got["w"][1]!r} / {got["r"][1]!r}')
+        try:
+            fn, me, fs, docs, out = _run_persist(ctx, 'w', fname)
+        except Unmodelled as exc:
+            raise Unmodelled(f'persist_to_json_file({fname!r}): {exc}')
+        kind, text = _content(fs, fname) if out.end == 'return' else (f'<{out.end} {out.value!r}>', None)
+        ctx.expect(kind == want, fn, f'{fname!r}: compression chosen by the lower-cased extension',
+                   f'{fname!r} is written {kind}, expected {want} (gzip exactly for the extensions .gz/.gzip in any letter case)')
+        ctx.expect(text is not None and '"document": 0' in text, fn, f'{fname!r}: holds the whole document',
+                   f'{fname!r} holds {text[:60] if text else text!r} after persist_to_json_file')
+        try:
+            rfn, rme, rfs, rdocs, rout = _run_persist(ctx, 'r', fname, stored=kind if kind in ('plain', 'gzip') else want)
+        except Unmodelled as exc:
+            raise Unmodelled(f'construct_from_json_file({fname!r}): {exc}')
+        ctx.expect(rout.end == 'return' and rme.f.get('cells') == 'C', rfn, f'{fname!r}: read the way it is written',
+                   f'{fname!r} is written {kind} but construct_from_json_file on such a file ends in {rout.end} {rout.value!r} with cells = {rme.f.get("cells")!r}: '
+                   'the file cannot be restored')
     ctx.floor(24, 'file-name witnesses')
 
 
@@ -206,11 +183,11 @@ def rule_3(ctx):
 
 
 def rule_4(ctx):
-    fn, me, log, out = _run_persist(ctx, 'r', 'model.json', build_code=True)
+    fn, me, fs_, docs_, out = _run_persist(ctx, 'r', 'model.json', build_code=True)
     ctx.expect(me.f.get('built') == 1, fn, 'build_code=True re-parses the formulas', 'construct_from_json_file(build_code=True) does not call build_code()')
     order_ok = all(me.f.get(a) in ('C', 'D', 'F', 'R') for a in MAPS)
     ctx.expect(order_ok, fn, 'maps restored before compiling', 'build_code() runs before all maps are restored')
-    fn2, me2, log2, out2 = _run_persist(ctx, 'r', 'model.json', build_code=False)
+    fn2, me2, fs2_, docs2_, out2 = _run_persist(ctx, 'r', 'model.json', build_code=False)
     ctx.expect(me2.f.get('built') == 0, fn2, 'build_code=False leaves the formulas uncompiled', 'the formulas are compiled although build_code is False')
     mm = ctx.mod('model')
     bc = mm.func('Model.build_code')
@@ -348,6 +325,71 @@ def rule_6(ctx):
     ctx.floor(8, 'persisted classes')
 
 
+FILE_BIG = {'A1': 1, 'A2': 2, 'A3': 3, 'A4': 4, 'B1': '=SUM(A1:A4)', 'B2': '=A1*A2+A3*A4', 'B3': '=B1&" total, "&B2&" mixed"', 'B4': '=IF(B1>5,"large workbook","small")',
+            'C1': '=B1+B2', 'C2': '=C1*2', 'C3': '=MAX(A1:A4)-MIN(A1:A4)', 'C4': 'a fairly long text constant that makes this document the larger one'}
+FILE_SMALL = {'A1': 7, 'B1': '=A1+1'}
+FILE_WANT = {'big': {'B1': 10, 'B2': 14, 'C1': 24, 'C2': 48, 'C3': 3}, 'small': {'B1': 8}}
+
+
+def rule_7(ctx):
+    """Files have histories: persist_to_json_file and construct_from_json_file interpreted as written over a file system in memory
+    (names -> bytes; open / os.open / gzip with their truncation, creation and position rules) - a name written several times, by
+    larger and smaller models, plain and compressed, next to other files: what is restored is the model persisted last."""
+    from . import workbook as W
+    from . import scenarios as S
+    from . import vfs
+    mm = ctx.mod('model')
+    anchor = mm.func('Model.persist_to_json_file')
+    n = 0
+    for fname in ('model.json', 'model.gz', 'state.GZIP', 'plain'):
+        for order in (('big', 'small'), ('small', 'big'), ('big', 'small', 'small'), ('small',), ('big', 'big', 'small', 'big')):
+            fs, docs = vfs.VFS(), vfs.Documents()
+            models = dict(fs.models())
+            models.update(docs.models())
+            fs.files['other' + fname] = bytearray(b'not a model')
+            base = W.Workbook(ctx, {'A1': 1}, models=models)
+            last = None
+            ok = True
+            for which in order:
+                wb = W.Workbook(ctx, FILE_BIG if which == 'big' else FILE_SMALL, models=models, world=base.world)
+                out = wb._run(mm, {'m': wb.model, 'f': fname, 'open': Ref('builtin:open')}, 'return m.persist_to_json_file(f)')
+                if out.end != 'return':
+                    ok = False
+                    ctx.bad(anchor, f'{fname}: written {" then ".join(order)}', f'persist_to_json_file({fname!r}) of the {which} model ends in {out.end} {out.value!r}')
+                    break
+                last = which
+            if not ok:
+                continue
+            out = base._run(mm, {'f': fname, 'open': Ref('builtin:open')}, 'n = Model()\nn.construct_from_json_file(f, build_code=True)\nreturn n')
+            n += 1
+            label = f'{fname}: written {" then ".join(order)}, then restored'
+            if out.end != 'return' or not isinstance(out.value, Rec):
+                ctx.bad(anchor, label, f'after persisting the {", the ".join(order)} model to {fname!r} (in this order), construct_from_json_file({fname!r}) ends in '
+                        f'{out.end} {out.value!r}; the file holds {len(fs.files.get(fname, b""))} bytes, the document written last has '
+                        f'{fs.log and [e for e in fs.log if e[0] == "write" and e[1] == fname][-1][2]} - a persisted model restores to the model written last')
+                continue
+            restored = W.Workbook.adopt(base, out.value)
+            cells = restored.model.f.get('cells')
+            src = FILE_BIG if last == 'big' else FILE_SMALL
+            want_keys = sorted('Sheet1!' + k for k in src)
+            have = sorted(cells) if isinstance(cells, dict) else repr(cells)
+            wrong = []
+            if have != want_keys:
+                wrong.append(f'cells {have} instead of {want_keys}')
+            else:
+                for a, w in FILE_WANT[last].items():
+                    got = restored.value('Sheet1!' + a)
+                    if not S.same(got, w):
+                        wrong.append(f'{a} evaluates to {got!r} instead of {w!r}')
+            ctx.expect(not wrong, anchor, label,
+                       f'after persisting the {", the ".join(order)} model to {fname!r} (in this order) the restored model is not the {last} one: ' + '; '.join(wrong[:3]))
+            untouched = bytes(fs.files.get('other' + fname, b'')) == b'not a model'
+            ctx.expect(untouched, anchor, f'{fname}: written {" then ".join(order)}, other files untouched',
+                       f'persisting to {fname!r} changed the file {"other" + fname!r}')
+            n += 1
+    ctx.floor(40, 'file histories')
+
+
 RULES = [
     ('C12.1', 'writer and reader agree on keys, attributes and options', rule_1),
     ('C12.2', 'compression predicate agrees', rule_2),
@@ -355,4 +397,5 @@ RULES = [
     ('C12.4', 'restoring recompiles the formulas', rule_4),
     ('C12.5', 'evaluation leaves only rebuildable objects on the persisted formula nodes', rule_5),
     ('C12.6', 'custom pickling hooks of persisted classes give every field back', rule_6),
+    ('C12.7', 'file histories over a file system in memory: what is restored is what was persisted last', rule_7),
 ]
